@@ -9,6 +9,7 @@ CONSTANTS
   SeedWraps <- PlainWrap
 INVARIANT C14_SetGet
 INVARIANT C14_DelGet
+INVARIANT C14_CopyGet
 INVARIANT C14_OthersUntouched
 INVARIANT C14_MissingKey
 CHECK_DEADLOCK FALSE
